@@ -45,6 +45,8 @@ def run_rules(mod, ctx, prop):
     check_truthiness(ctx, anchor_files(prop))
     check_validation_bypass(ctx, anchor_files(prop))
     check_call_shapes(ctx, anchor_files(prop))
+    from rules.serves import check_serves_valid
+    check_serves_valid(ctx, prop)
     if pending is None:
         check_public_exports(ctx, mod, anchor_files(prop))
     elif not ctx.findings:
